@@ -160,7 +160,11 @@ func genChains(t *rapid.T, minLogN, maxLogN, minQ, maxQ, minP, maxP int, allowCI
 	nQ := rapid.IntRange(minQ, maxQ).Draw(t, "nQ")
 	nP := rapid.IntRange(minP, maxP).Draw(t, "nP")
 	used := map[uint64]bool{}
-	if wideChains && h.Thorough() && s.LogN <= 5 && rapid.IntRange(0, 5).Draw(t, "wide") == 0 {
+	wideOdds, wideLogN := 11, 4 // quick tier: one case in twelve, N <= 16
+	if h.Thorough() {
+		wideOdds, wideLogN = 5, 5
+	}
+	if wideChains && s.LogN <= wideLogN && rapid.IntRange(0, wideOdds).Draw(t, "wide") == 0 {
 		// 9..16 source primes of 60/61 bits: the 128-bit accumulator of multSum then carries up to 2q in its high word
 		nQ = rapid.IntRange(9, 16).Draw(t, "nQwide")
 		sz := make([]int, nQ)
@@ -461,4 +465,19 @@ func recKinds(rec *h.Rec, cs []CoefSpec) {
 			rec.Class("coef:" + c.Kind)
 		}
 	}
+}
+
+// levelsRound is one (checked) use of the objects of a case: the prior life at the maximum levels, then the case proper.
+type levelsRound struct {
+	lq, lp int
+	coeffs []CoefSpec
+	tag    string
+}
+
+// genLevel draws a level 0..n-1; for wide chains (n >= 9) it is biased to the upper half so that many limbs are summed.
+func genLevel(t *rapid.T, n int, label string) int {
+	if n >= 9 && rapid.IntRange(0, 2).Draw(t, label+"_hi") > 0 {
+		return rapid.IntRange(8, n-1).Draw(t, label)
+	}
+	return rapid.IntRange(0, n-1).Draw(t, label)
 }
